@@ -1,5 +1,6 @@
 import KoordVerif.Common.Proto
 import KoordVerif.Model.C06
+import KoordVerif.Model.C06Pick
 /-
 Driver for C06.  Op lines (integer tokens):
 
@@ -12,6 +13,9 @@ Driver for C06.  Op lines (integer tokens):
   navail <n> (cell capacity)…                             -> navail (cell available)…
   policy <policy> <cpc> <n> (cpu core)…                   -> policy <0|1>
   pick <n> <na> avail… <ns> result…                       -> pick <0|1>
+  take <maxRef> <excl> <most> <bind> <need> <numCPUs> <numCores> <numNodes> <numSockets>
+       <nt> (cpu core node socket)… <na> avail… <nal> (cpu ref excl)… <np> preferred…
+                                                          -> take 1 cpu… | take 0   (takePreferredCPUs)
 ledger dump = `pods u…` / `cpus (c ref excl)…` / `res (cell amt)…` (non-zero) / `avail c…`,
 every list sorted by key.  All amounts in milli-units.
 -/
@@ -97,6 +101,41 @@ def runNuma : List Int → List String
     | none => ["bad-op"]
   | _ => ["bad-op"]
 
+def quads : List Int → List CpuI
+  | a :: b :: c :: d :: rest =>
+    { cpu := a.toNat, core := b.toNat, node := c.toNat, socket := d.toNat } :: quads rest
+  | _ => []
+
+def triples : List Int → List (Nat × Int × Nat)
+  | a :: b :: c :: rest => (a.toNat, b, c.toNat) :: triples rest
+  | _ => []
+
+def runTake : List Int → List String
+  | maxRef :: excl :: most :: bind :: need :: nCPU :: nCore :: nNode :: nSock :: rest =>
+    match takeBlock 4 rest with
+    | some (t, rest) =>
+      match takeBlock 1 rest with
+      | some (av, rest) =>
+        match takeBlock 3 rest with
+        | some (al, rest) =>
+          match takeBlock 1 rest with
+          | some (pr, []) =>
+            if nCore ≤ 0 || nNode ≤ 0 || nSock ≤ 0 || nCPU < 0 || excl < 0 then ["bad-op"] else
+            let topo := quads t
+            let ctx : PickCtx := { topo := topo, cpc := nCPU.toNat / nCore.toNat, cpn := nCPU.toNat / nNode.toNat,
+                                   cps := nCPU.toNat / nSock.toNat, maxRef := maxRef, excl := excl.toNat,
+                                   most := most ≠ 0 }
+            let allocated : List CpuI := (triples al).map fun (c, r, e) =>
+              { topoInfo ctx c with cpu := c, ref := r, excl := e }
+            match takePreferredCPUs ctx (bind = 1) (av.map Int.toNat) (pr.map Int.toNat) allocated need with
+            | some res => ["take 1" ++ String.join ((sortNat res).map fun c => s!" {c}")]
+            | none => ["take 0"]
+          | _ => ["bad-op"]
+        | none => ["bad-op"]
+      | none => ["bad-op"]
+    | none => ["bad-op"]
+  | _ => ["bad-op"]
+
 def runLine (c : Ctx) (line : String) : Ctx × List String :=
   match toks line with
   | kind :: rest =>
@@ -105,6 +144,7 @@ def runLine (c : Ctx) (line : String) : Ctx × List String :=
     | some xs =>
       match kind with
       | "numa" => (c, runNuma xs)
+      | "take" => (c, runTake xs)
       | "init" =>
         match xs with
         | maxRef :: rest =>
